@@ -239,7 +239,7 @@ class DocGen:
         r = self.rng
         opts = [("scalar", 5.0)]
         if self.schema_kind:
-            opts.append(("ref", 3.0))
+            opts.append(("ref", getattr(self, "ref_weight", 3.0)))
         if self.on("enums"):
             opts.append(("enum", 1.5))
         if allow_array:
